@@ -27,7 +27,7 @@ func drawConfig(rt *rapid.T) cbConfig {
 		expr:         rapid.SampledFrom(simpleConditions).Draw(rt, "condition"),
 		fallback:     drawDuration(rt, "fallback"),
 		recovery:     drawDuration(rt, "recovery"),
-		checkPeriod:  drawDuration(rt, "check-period"),
+		checkPeriod:  drawCheckPeriod(rt),
 		fine:         rapid.Bool().Draw(rt, "fine"),
 		sideEffects:  rapid.IntRange(0, 3).Draw(rt, "side-effects") == 0,
 		fallbackKind: rapid.IntRange(0, 2).Draw(rt, "fallback-kind"),
